@@ -94,6 +94,17 @@ Theorem C06_commit_converges_after_failure : forall c rp,
 Proof. exact commit_converges_after_failure. Qed.
 Print Assumptions C06_commit_converges_after_failure.
 
+(** Copying a directory through the cache: when it reports success every node visible below the
+    source is visible below the destination byte for byte (and the invariant holds, so the next
+    Commit sends it to the remote). *)
+Theorem C06_copy_dir : forall c src dst c',
+  Inv c -> good_path src = true -> good_path dst = true -> src <> [] ->
+  vlookup c src = Some D -> c_copy c src dst = (c', RUnit) ->
+  Inv c' /\ vlookup c' dst = Some D /\
+  (forall rel e, rel <> [] -> vlookup c (src ++ rel) = Some e -> vlookup c' (dst ++ rel) = Some e).
+Proof. exact c_copy_dir_spec. Qed.
+Print Assumptions C06_copy_dir.
+
 (** Non-vacuity: a concrete history. *)
 Example C06_ex :
   let r := [([[100]], D); ([[100]; [120]], F [49])] in                         (* remote: d/, d/x = "1" *)
